@@ -111,8 +111,10 @@ CHECKS = {
             'poked in place) and by the memory-sharing probe of the oracle.',
             'Trusted: Lean kernel + standard axioms; XReal has exact arithmetic on finite values (rounding covered by the '
             'bit-exact comparison with numpy, 4 ulp for 0-d datasets whose **2 goes through libm pow); array operands of '
-            'the same or an incompatible shape only (numpy broadcasting to a larger shape not modelled); masks checked '
-            'by the oracle only.',
+            'the same shape, of an incompatible shape, or (datasets with bins) of a shape that numpy broadcasts to a larger '
+            'one: rejected by the model and, since the repair A26, by the code; arrays that broadcast into the shape of the '
+            'dataset are not generated; masked datasets (np.ma) have no Lean counterpart: operands (values, errors, bins, '
+            'masks) unchanged and results well formed are decided by the oracle on chains with repeated masks.',
             '10 (C08)'),
     'C10': ('Lean 4 proof (PARTIAL) + differential correspondence + ground-truth end-to-end checks: the spectrum assembly '
             '(convert_spectrum: bin counting, filling, last bins, flipping of decreasing axes) and the error conversion are '
